@@ -41,7 +41,9 @@ NEGATIVES = ['unknown_input', 'foreign_block', 'cblock_event_dest_obj', 'cblock_
              'unknown_event_dest', 'unknown_control', 'unknown_add_output',
              'foreign_same_name', 'unknown_prefix_name', 'double_shortcut',
              # a reference of the wrong kind following a legal reference to the same name
-             'cblock_dest_after_anyref', 'cblock_nii_after_anyref', 'cblock_dest_after_input_ref']
+             'cblock_dest_after_anyref', 'cblock_nii_after_anyref', 'cblock_dest_after_input_ref',
+             # wrongly shaped: an (empty) group where a single input is expected and vice versa
+             'override_empty_group', 'override_empty_group_both']
 
 
 class Noop(edzed.CBlock):
@@ -248,6 +250,10 @@ def execute(case):
                 edzed.Override('neg').connect(input='s0')
             elif neg == 'override_group':
                 edzed.Override('neg').connect(input=['s0', 's0'], override='s0')
+            elif neg == 'override_empty_group':
+                edzed.Override('neg').connect(input=[], override='s0')
+            elif neg == 'override_empty_group_both':
+                edzed.Override('neg').connect(input=(), override=())
             elif neg == 'positional_list':
                 Noop('neg').connect(['s0'])
             elif neg == 'duplicate_name':
